@@ -838,6 +838,10 @@ func (t *Table) SetCellFormat(row, col int, format *CellFormat) error {
 		return err
 	}
 
+	if format == nil {
+		return fmt.Errorf("单元格格式配置不能为空")
+	}
+
 	// 确保单元格有属性
 	if cell.Properties == nil {
 		cell.Properties = &TableCellProperties{}
